@@ -161,6 +161,22 @@ func runC14(c *engine.Ctx) {
 			cmp("key-order", P, e, string(v))
 		}
 	}
+	// (b2) the same document written with << merges of anchored templates, twice with different placements of
+	// the merge key and of overriding keys: by the merge rules all three denote the same content
+	if doc.Kind == gen.KMap {
+		for k := 0; k < 2; k++ {
+			v, nm, ok := gen.RenderMerged(p, doc)
+			if !ok {
+				break
+			}
+			pl1, _ := parseDoc(c, "C14.panic", v)
+			if pl1 != nil {
+				P, e := signPayloads(c, pl1, kp, repoURL)
+				cmp("yaml-merges", P, e, string(v))
+				c.ProbeN("merges_rendered", nm)
+			}
+		}
+	}
 	// (c) nil vs empty containers
 	{
 		vdoc := doc.Clone()
@@ -361,6 +377,46 @@ func runC14(c *engine.Ctx) {
 					fpKinds = append(fpKinds, name)
 					c.Probe("differ_pairs")
 
+					// ---- constructed pairs: dimensions without values still have names
+					if c.Sched.Draw(3, "c14:emptydims?") == 2 {
+						mkm := func(m *gen.Node) []byte {
+							st := j.step.Clone()
+							st.Del("signature")
+							if m == nil {
+								st.Del("matrix")
+							} else {
+								st.Set("matrix", m)
+							}
+							cs := new(pipeline.CommandStep)
+							if cs.UnmarshalJSON(st.ToJSON(nil)) != nil {
+								return nil
+							}
+							pay, err := signOnePayload(c, cs, kp, j.repoURL, penv)
+							if err != nil {
+								return nil
+							}
+							return pay
+						}
+						empty := func() *gen.Node { return &gen.Node{Kind: gen.KSeq, Seq: []*gen.Node{}} }
+						variants := map[string][]byte{
+							"no-matrix":         mkm(nil),
+							"setup{os:[]}":      mkm(gen.Map().Set("setup", gen.Map().Set("os", empty()))),
+							"setup{arch:[]}":    mkm(gen.Map().Set("setup", gen.Map().Set("arch", empty()))),
+							"setup{os:[],x:[]}": mkm(gen.Map().Set("setup", gen.Map().Set("os", empty()).Set("x", empty()))),
+						}
+						names := []string{"no-matrix", "setup{os:[]}", "setup{arch:[]}", "setup{os:[],x:[]}"}
+						for a := 0; a < len(names); a++ {
+							for b2 := a + 1; b2 < len(names); b2++ {
+								pa, pb := variants[names[a]], variants[names[b2]]
+								if pa != nil && pb != nil && bytes.Equal(pa, pb) {
+									c.Fail("C14.differ", "matrix dimensions without values", "steps whose matrix is %s and %s have the SAME payload: %s", names[a], names[b2], truncate(string(pa), 600))
+								}
+							}
+						}
+						judged["differ:empty-dimensions"] = true
+						c.Probe("differ_pairs.empty-dimensions")
+					}
+
 					// ---- constructed pair: matrix-level extra keys that carry the NAME of a typed field (as
 					// interpolation of an unknown key can produce) must not stand in for the typed field
 					if v.step.Matrix != nil && len(v.step.Matrix.Setup) > 0 && c.Sched.Draw(2, "c14:shadow?") == 1 {
@@ -416,7 +472,7 @@ func runC14(c *engine.Ctx) {
 		fl = append(fl, k)
 	}
 	sort.Strings(fl)
-	nt := len(fpKinds) > 0 || judged["key-order"] || judged["nil-vs-empty"] || judged["source-spelling"]
+	nt := len(fpKinds) > 0 || judged["key-order"] || judged["nil-vs-empty"] || judged["source-spelling"] || judged["yaml-merges"]
 	c.Fingerprint(nt, strings.Join(kinds, ","), strings.Join(fl, ","), kp.kind)
 }
 
